@@ -16,6 +16,7 @@ from pathlib import Path
 sys.path.insert(0, str(Path(__file__).resolve().parent))
 import common as C
 import simlib as S
+import simtr as T
 
 PID = "C02"
 TARGETS = ["Sim/Case.vo", "Props/C02.vo"]
@@ -51,6 +52,12 @@ def gen_case(rng: random.Random, i: int) -> dict:
         return {"clock": clock, "strategy": "pause", "prog": prog,
                 "cmds": [["init", 0, u * rng.randint(0, 14), u * rng.randint(10, 18)], ["start"]]}
     prog = S.gen_program(rng, clock, p_illegal=0.14, p_cancel=0.14)
+    if clock != "int" and rng.random() < 0.3:
+        # malformed stream, inexact part: a negative delay (or a past time) so small that clock + delay rounds to the clock
+        for _ in range(rng.randint(1, 3)):
+            h = rng.randint(1, len(prog) - 1)
+            tok = rng.choice([["rel", "tinyneg1"], ["rel", "tinyneg2"], ["rel", "tinyneg3"], ["rel", "tinyneg1"], ["abs", "tinypast"]])
+            prog[h].insert(rng.randint(0, len(prog[h])), ["sched", tok, rng.choice(S.PRIOS), rng.randint(1, len(prog) - 1)])
     return {"clock": clock, "strategy": "pause", "prog": prog, "cmds": [S.gen_repl(rng, clock), ["start"]]}
 
 
@@ -58,6 +65,8 @@ def illegal(mode, clock_q):
     if mode[0] == "now":
         return False
     if mode[1] == "nan":
+        return True
+    if isinstance(mode[1], str) and mode[1].startswith("tiny"):   # tiny negative delay / time just before the clock
         return True
     if mode[0] == "rel":
         return mode[1] < 0
@@ -278,7 +287,11 @@ def main(tier: str, pid=PID, gen=gen_case, oracle_fn=oracle, n_quick=4000, n_tho
          rule=None, extra_tb=None, targets=None, prepare=None, extra_cases=None, nontrivial=None) -> int:
     targets = targets or ["Sim/Case.vo", f"Props/{pid}.vo"]
     run = C.Run(pid, tier)
-    proofs_ok = run.check_proofs(targets, extra_tb=(extra_tb or []) + [
+    # second tie: the model regenerated from simulator.py of the tree under test, proved equal to Sim/Model.v (harness/simtr.py)
+    tree = T.prepare(run)
+    if tree is None:
+        return run.finish()
+    proofs_ok = T.check_proofs(run, tree, targets, extra_tb=(extra_tb or []) + [
         "pending set modelled at specification level (sorted list); the heap-backed list is covered by C01's refinement theorem and by this correspondence",
         "times are exact dyadic numbers (quarters) so float/Duration clock arithmetic is exact; float rounding of clock arithmetic is not modelled",
         "worker thread executed synchronously (commands observed at quiescence); CPython threading trusted",
@@ -327,7 +340,8 @@ def main(tier: str, pid=PID, gen=gen_case, oracle_fn=oracle, n_quick=4000, n_tho
     run.cov["evaluations"] = len(cases)
     run.cov["distinct_nontrivial"] = len(nontriv)
     run.cov["rule"] = rule or ("generated model programs (DAG of handlers + optional self-rescheduling handler; now/relative/absolute "
-                               "scheduling, zero delays, exact ties, priorities 1..10, cancels of pending/executed events, illegal requests; "
+                               "scheduling, zero delays, exact ties, priorities 1..10, cancels of pending/executed events, illegal requests incl. NaN and, on "
+                               "float / Duration clocks, negative delays below half an ulp of the clock (-1e-15, -5e-324, -2^-60) and times a few ulps before the clock; "
                                "every third case a cancel-stress program: 7-16 events pending at once, handlers that mostly cancel) "
                                "x 4 clock kinds (int, float, Duration s, Duration min), run with initialize+start; non-trivial = distinct case "
                                "executing >= 3 events and exercising at least one of: time tie, cancel of a pending event, illegal request, zero delay")
@@ -381,6 +395,10 @@ def main(tier: str, pid=PID, gen=gen_case, oracle_fn=oracle, n_quick=4000, n_tho
                       "was found violated by the oracle",
                       {"case": cases[i], "impl_observation": obs[i], "model_view": view, "relation": "Sim.Case.case_code"},
                       found_input=False)
+    if tree.broken() and not first_bad:
+        # the regenerated model differs from the proved one and neither the oracle nor the search around the
+        # model / implementation disagreements produced an input that violates the property itself
+        T.report_broken_tie(run, tree, {"model_impl_mismatching_cases": n_dis})
     if not proofs_ok and not run.violations:
         run.violation("proof-broken", f"a {pid} proof obligation no longer checks: " + getattr(run, "proof_log", "")[-800:],
                       {"theorems": run.cov.get("theorems")}, found_input=False)
